@@ -756,7 +756,7 @@ def stage_programs(ck, st, nprogs, per_batch, viol, known_present):
 DTYPES = [("i8", 1), ("u8", 1), ("i16", 2), ("u16", 2), ("i32", 4), ("u32", 4), ("i64", 8), ("u64", 8)]
 
 
-def gen_data_module(rng, name, allow_anon, scalar_ok=False):
+def gen_data_module(rng, name, allow_anon, scalar_ok=False, allow_refs=True):
     """module with data sections and a reader  i64 f (i64 k)  returning a hash of all section bytes"""
     items, lines, sections = [], [], []   # sections: (head name, total bytes)
     nsec = 1 + rng.below(4)
@@ -787,6 +787,35 @@ def gen_data_module(rng, name, allow_anon, scalar_ok=False):
             body.append(f"  mov t, u8:{off}(p)")
             body.append("  mul acc, acc, 31")
             body.append("  xor acc, acc, t")
+    # ref data: sections of stored addresses `ref <section head>, <disp>` (named heads and anonymous members,
+    # mixed with plain data members); displacements positive, negative, inside and beyond the target's first
+    # member / the whole target; targets are multi-item sections, scalars and bss.  The stored address is read
+    # back: its distance to the target's address enters the result, and so does the byte it points to when
+    # it lies inside the target.
+    refsecs = []
+    if allow_refs:
+        for s_ in range(1 + rng.below(3)):
+            head = f"{name}_r{s_}"
+            nmem = 1 + (rng.below(3) if allow_anon else 0)
+            off = 0
+            for j in range(nmem):
+                label = f"{head}: " if j == 0 else "    "
+                if j > 0 and rng.below(3) == 0:
+                    v = rng.below(1 << 15)
+                    lines.append(f"{label}u16 {v}, {v ^ 0x55}")
+                    body += [f"  mov p, {head}", f"  mov t, u16:{off}(p)", "  mul acc, acc, 31", "  xor acc, acc, t",
+                             f"  mov t, u16:{off + 2}(p)", "  mul acc, acc, 31", "  xor acc, acc, t"]
+                    off += 4
+                    continue
+                thead, ttot = sections[rng.below(len(sections))]
+                disp = [8, 1, -8, -3, 0, ttot - 1, ttot, ttot + 5, 40, 2, 16, -1][rng.below(12)]
+                lines.append(f"{label}ref {thead}, {disp}")
+                body += [f"  mov p, {head}", f"  mov q, i64:{off}(p)", f"  mov p, {thead}", "  sub t, q, p",
+                         "  mul acc, acc, 1000003", "  xor acc, acc, t"]
+                if 0 <= disp < ttot:
+                    body += ["  mov t, u8:(q)", "  mul acc, acc, 31", "  xor acc, acc, t"]
+                off += 8
+            refsecs.append((head, off))
     # write into the first section, read back (data must be writable memory)
     body.append(f"  mov p, {sections[0][0]}")
     body.append("  mov u8:(p), k")
@@ -794,7 +823,8 @@ def gen_data_module(rng, name, allow_anon, scalar_ok=False):
     body.append("  add acc, acc, t")
     body.append("  ret acc")
     fname = f"{name}_f"
-    text = f"{name}: module\nexport {fname}\n" + "\n".join(lines) + f"\n{fname}: func i64, i64:k\n  local i64:acc, i64:p, i64:t\n" + "\n".join(body) + "\n  endfunc\n  endmodule\n"
+    text = f"{name}: module\nexport {fname}\n" + "\n".join(lines) + f"\n{fname}: func i64, i64:k\n  local i64:acc, i64:p, i64:q, i64:t\n" + "\n".join(body) + "\n  endfunc\n  endmodule\n"
+    sections = sections + refsecs
     return text, fname, items + ["No"] * 0, sections
 
 
